@@ -24,6 +24,15 @@ impl Node {
         assert(hash@[it.index@ as int] != 0u8);
     @*/
 }
+impl Node {
+    /*@ fn src/common/node.rs Node::new_blank
+    tags: C11 C01
+    result: r
+    ensures:
+        // a placeholder written while a truncation is pending: never a protocol value (observation: its `hash` has 2 bytes)
+        r.index == index, r.blank, r.length == 0, r.data is None
+    @*/
+}
 impl CompactEncoding for Node {
     open spec fn spec_enc(&self) -> Seq<u8> { Self::dec_enc(*self) }
     open spec fn dec_enc(d: Self) -> Seq<u8> { u64::dec_enc(d.index) + u64::dec_enc(d.length) + d.hash@ }
